@@ -492,6 +492,20 @@ func c11Scenarios() []c11Scenario {
 			if hi := r[0].End; ml.MaxLabel < hi || ml.MaxLabel < r[1].End {
 				bad = append(bad, fmt.Sprintf("maxlabel-behind\tafter nextlabel ranges %v and %v were handed out, maxlabel reports %d", r[0], r[1], ml.MaxLabel))
 			}
+			// the counters in the store (what a restart would load) must not be behind the labels handed out
+			if d, err := datastore.GetDataByUUIDName(dvid.UUID(w.root), "lm"); err == nil {
+				if lm, ok := d.(*labelmap.Data); ok {
+					v, _ := datastore.VersionFromUUID(dvid.UUID(w.root))
+					hi := r[0].End
+					if r[1].End > hi {
+						hi = r[1].End
+					}
+					vm, vok, rm, rok, err := labelmap.VerifStoredMaxLabels(lm, v)
+					if err == nil && ((vok && vm < hi) || (rok && rm < hi)) {
+						bad = append(bad, fmt.Sprintf("persisted-maxlabel-behind\tafter nextlabel ranges %v and %v were handed out the store holds version maximum %d (present %v) and repo-wide maximum %d (present %v): a restart would hand out labels up to %d again", r[0], r[1], vm, vok, rm, rok, hi))
+					}
+				}
+			}
 			nx := vsrv.Post("node/"+w.root+"/lm/nextlabel/1", nil)
 			var r3 rng
 			json.Unmarshal(nx.Body, &r3)
